@@ -1,10 +1,15 @@
 #!/bin/sh
-# Build the framework from files on disk only (offline): Lean library + native driver, Go harness warm-up.
+# Build the framework from files on disk only (offline): Lean library (all property modules) + native driver,
+# Go harness and extractors warm-up.
 set -e
 cd "$(dirname "$0")"
-export GOFLAGS=-mod=mod GOPROXY=off GOSUMDB=off GOTOOLCHAIN=local
+export GOFLAGS=-mod=mod GOPROXY=off GOSUMDB=off GOTOOLCHAIN=local CGO_ENABLED=0
 mkdir -p .build evidence
-(cd lean && lake build Relic relic_driver)
+mods=$(cd lean && ls Relic/Props/*.lean | sed 's/\.lean$//; s#/#.#g')
+(cd lean && lake build $mods relic_driver)
 cp /repo/go.sum harness/go.sum
-(cd harness && CGO_ENABLED=0 go build -tags verif -o ../.build/vh ./cmd/vh)
+(cd harness && go build -tags verif -o ../.build/vh ./cmd/vh)
+for t in tools/*/; do
+  [ -f "$t/go.mod" ] && (cd "$t" && go build -o "../../.build/$(basename "$t")" .)
+done
 echo setup-ok
